@@ -368,30 +368,12 @@ Qed.
 Lemma newest_d : newest (t_src c) (t_ig c) (d_curs d) = gpos g.
 Proof. rewrite <- newest_pv, Hpv. apply newest_render. exact Hw. Qed.
 
-(* from the point where the local position is known *)
-Lemma hx_with_local : forall f lh again, (hs = true -> lh = b_hash x) ->
-  hx (9 + f) (with_local repaired c again ln lh) d (Some [])
+(* the second transaction, from a committed state whose pair renders [g] *)
+Lemma hx_tail : forall f th,
+  hx (5 + f) (Op Begin (tx2_begin c bs tn th delta)) d None
   = (Fin OConverged, apply_ws [WCopy (rows_of c bs); WInsCur (bcur c bs)] d, None).
 Proof.
-  intros f lh again Hlh. destruct delta_facts as (D1 & D2 & D3 & D4 & D5 & D6).
-  unfold with_local.
-  assert (Hstop : (0 <? t_stop c) && (t_stop c <=? ln) = false).
-  { destruct (N.ltb_spec 0 (t_stop c)); [|reflexivity]. destruct (N.leb_spec (t_stop c) ln); [lia|reflexivity]. }
-  rewrite Hstop. cbn [Nat.add].
-  rewrite hx_node by reflexivity. destruct (honest_latest ln) as (tb & Htb & ->).
-  unfold after_head. rewrite Hdeps. unfold after_target.
-  destruct (N.ltb_spec tn ln); [lia|]. destruct (N.eqb_spec ln tn); [lia|].
-  destruct (N.eqb_spec delta 0); [lia|].
-  assert (Hln : ln < nmax) by lia. rewrite (w64_nmax' ln Hln).
-  rewrite hx_node by reflexivity.
-  assert (T : tiles (ln + 1) (ln + 1 + delta) (partitions repaired c (ln + 1) delta)).
-  { apply partitions_tile; try assumption. unfold nmax, two63 in *. lia. }
-  rewrite (honest_get _ _ _ T) by lia.
-  unfold after_get.
-  destruct (load_honest ln lh delta x D1 ltac:(lia) Hx Hlh) as [L|L]; [|contradiction].
-  rewrite L. unfold insert_tx.
-  (* Commit of the first transaction: nothing to commit *)
-  rewrite hx_db by reflexivity. cbn [db_step vis apply_ws fold_left fst snd]. unfold tx1_commit. cbn [is_fail].
+  intros f th. destruct delta_facts as (D1 & D2 & D3 & D4 & D5 & D6). cbn [Nat.add].
   rewrite hx_db by reflexivity. cbn [db_step fst snd]. unfold tx2_begin. cbn [is_fail].
   rewrite hx_db by reflexivity. cbn [db_step vis apply_ws fold_left].
   assert (Hcc : u && copy_collides (d_rows d) (rows_of c bs) = false).
@@ -408,6 +390,43 @@ Proof.
   rewrite Hcur. cbn [do_write fst snd app]. unfold tx2_cursor. cbn [is_fail].
   rewrite hx_db by reflexivity. cbn [db_step vis fst snd]. unfold tx2_done. cbn [is_fail].
   rewrite hx_ret. reflexivity.
+Qed.
+
+(* from the point where the local position is known up to the load: node
+   operations only, whatever the connection state *)
+Lemma hx_to_insert : forall f lh again d' cs', (hs = true -> lh = b_hash x) ->
+  exists th,
+  hx (2 + f) (with_local repaired c again ln lh) d' cs'
+  = hx f (insert_tx c bs tn th delta) d' cs'.
+Proof.
+  intros f lh again d' cs' Hlh. destruct delta_facts as (D1 & D2 & D3 & D4 & D5 & D6).
+  unfold with_local.
+  assert (Hstop : (0 <? t_stop c) && (t_stop c <=? ln) = false).
+  { destruct (N.ltb_spec 0 (t_stop c)); [|reflexivity]. destruct (N.leb_spec (t_stop c) ln); [lia|reflexivity]. }
+  rewrite Hstop. cbn [Nat.add].
+  rewrite hx_node by reflexivity. destruct (honest_latest ln) as (tb & Htb & ->).
+  unfold after_head. rewrite Hdeps. unfold after_target.
+  destruct (N.ltb_spec tn ln); [lia|]. destruct (N.eqb_spec ln tn); [lia|].
+  destruct (N.eqb_spec delta 0); [lia|].
+  assert (Hln : ln < nmax) by lia. rewrite (w64_nmax' ln Hln).
+  rewrite hx_node by reflexivity.
+  assert (T : tiles (ln + 1) (ln + 1 + delta) (partitions repaired c (ln + 1) delta)).
+  { apply partitions_tile; try assumption. unfold nmax, two63 in *. lia. }
+  rewrite (honest_get _ _ _ T) by lia.
+  unfold after_get.
+  destruct (load_honest ln lh delta x D1 ltac:(lia) Hx Hlh) as [L|L]; [|contradiction].
+  rewrite L. exists (b_hash tb). reflexivity.
+Qed.
+
+(* from the point where the local position is known *)
+Lemma hx_with_local : forall f lh again, (hs = true -> lh = b_hash x) ->
+  hx (9 + f) (with_local repaired c again ln lh) d (Some [])
+  = (Fin OConverged, apply_ws [WCopy (rows_of c bs); WInsCur (bcur c bs)] d, None).
+Proof.
+  intros f lh again Hlh. destruct (hx_to_insert (7 + f) lh again d (Some []) Hlh) as (th & E).
+  change (9 + f)%nat with (2 + (7 + f))%nat. rewrite E. unfold insert_tx. cbn [Nat.add].
+  rewrite hx_db by reflexivity. cbn [db_step vis apply_ws fold_left fst snd]. unfold tx1_commit. cbn [is_fail].
+  apply (hx_tail (1 + f)).
 Qed.
 
 (* the whole step *)
@@ -475,13 +494,6 @@ Proof.
 Qed.
 End Progress.
 
-(* honest steps, iterated *)
-Fixpoint hiter (n : nat) (d : db) : db :=
-  match n with
-  | O => d
-  | S k => hiter k (r_db (exec_honest 400 u hs ch (converge c) d None))
-  end.
-
 Definition top : N := height ch - 1.
 
 (* C01 growth_progress: a fault-free step with something to index converges
@@ -511,58 +523,114 @@ Proof.
   split; [exact C|]. split; [exact D|]. eexists. exact F.
 Qed.
 
-(* C01 growth_reaches_head: once faults have stopped, at most target-position
-   further steps bring the position to the target min(head, stop) *)
-Lemma reach_lemma : forall m g d ln x,
+End Live.
+
+(* ---------- iteration, generic in the step function ---------- *)
+Section Iter.
+Variable stepf : db -> db.
+Fixpoint iter (n : nat) (d : db) : db :=
+  match n with O => d | S k => iter k (stepf d) end.
+
+Variable c : tcfg.
+Variable ch : chain.
+Notation hs := (t_hashes c).
+Notation tgt := (clip c (height ch - 1)).
+Definition at_pos (g : list batch) (ln : N) : Prop :=
+  (exists h, gpos g = Some (ln, h)) \/ (g = [] /\ 0 < t_start c /\ ln = t_start c - 1).
+
+(* what one step does when there is something to index *)
+Hypothesis Hstep : forall g d ln x,
   pv c d = render c g -> wf_ghost c g -> Forall (on_chain hs ch) (concat g) ->
-  blk_at ch ln = Some x ->
-  (exists h, gpos g = Some (ln, h)) \/ (g = [] /\ 0 < t_start c /\ ln = t_start c - 1) ->
-  ln < clip c top -> (N.to_nat (clip c top - ln) <= m)%nat ->
+  blk_at ch ln = Some x -> at_pos g ln -> ln < tgt ->
+  exists g1 ln1 h1,
+    ln < ln1 /\ ln1 <= tgt
+    /\ pv c (stepf d) = render c g1 /\ outside c (stepf d) = outside c d
+    /\ wf_ghost c g1 /\ Forall (on_chain hs ch) (concat g1) /\ gpos g1 = Some (ln1, h1).
+Hypothesis Htop : tgt <= height ch - 1.
+Hypothesis Hne : 1 <= height ch.
+
+Lemma reach_generic : forall m g d ln x,
+  pv c d = render c g -> wf_ghost c g -> Forall (on_chain hs ch) (concat g) ->
+  blk_at ch ln = Some x -> at_pos g ln -> ln < tgt -> (N.to_nat (tgt - ln) <= m)%nat ->
   exists n g', (1 <= n <= m)%nat
-    /\ pv c (hiter n d) = render c g' /\ wf_ghost c g' /\ Forall (on_chain hs ch) (concat g')
-    /\ (exists h, gpos g' = Some (clip c top, h))
-    /\ outside c (hiter n d) = outside c d.
+    /\ pv c (iter n d) = render c g' /\ wf_ghost c g' /\ Forall (on_chain hs ch) (concat g')
+    /\ (exists h, gpos g' = Some (tgt, h))
+    /\ outside c (iter n d) = outside c d.
 Proof.
   induction m as [|m IH]; intros g d ln x Hpv Hw Hon Hx Hpos Hlt Hm; [lia|].
-  destruct (progress_lemma g d ln x Hpv Hw Hon Hx Hpos Hlt) as (_ & _ & D1 & A & B & C & D & (h & F)).
-  remember (delta_of c ln (clip c top)) as delta eqn:Edelta.
-  remember (g ++ [view hs (segment ch (ln + 1) delta)]) as g1 eqn:Eg1.
-  remember (r_db (exec_honest 400 u hs ch (converge c) d None)) as d1 eqn:Ed1.
-  assert (Hle : ln + delta <= clip c top).
-  { rewrite Edelta. unfold delta_of. lia. }
-  destruct (N.eq_dec (ln + delta) (clip c top)) as [E|E].
-  - exists 1%nat, g1. split; [lia|]. cbn [hiter]. rewrite <- Ed1. split; [exact A|]. split; [exact C|].
-    split; [exact D|]. split; [exists h; rewrite <- E; exact F|exact B].
-  - assert (Hh : clip c top <= top) by apply clip_le'.
-    destruct (nth_error ch (N.to_nat (ln + delta))) as [x'|] eqn:En.
-    2:{ apply nth_error_None in En. unfold top, height in *. lia. }
-    assert (L1 : ln + delta < clip c top) by lia.
-    assert (L2 : (N.to_nat (clip c top - (ln + delta)) <= m)%nat) by lia.
-    destruct (IH g1 d1 (ln + delta) x' A C D En (or_introl (ex_intro _ h F)) L1 L2)
+  destruct (Hstep g d ln x Hpv Hw Hon Hx Hpos Hlt) as (g1 & ln1 & h1 & L1 & L2 & A & B & C & D & F).
+  destruct (N.eq_dec ln1 tgt) as [E|E].
+  - exists 1%nat, g1. split; [lia|]. cbn [iter]. split; [exact A|]. split; [exact C|].
+    split; [exact D|]. split; [exists h1; rewrite <- E; exact F|exact B].
+  - destruct (nth_error ch (N.to_nat ln1)) as [x'|] eqn:En.
+    2:{ apply nth_error_None in En. unfold height in *. lia. }
+    assert (K1 : ln1 < tgt) by lia.
+    assert (K2 : (N.to_nat (tgt - ln1) <= m)%nat) by lia.
+    destruct (IH g1 (stepf d) ln1 x' A C D En (or_introl (ex_intro _ h1 F)) K1 K2)
       as (n & g' & Hn & P1 & P2 & P3 & P4 & P5).
-    exists (S n), g'. split; [lia|]. cbn [hiter]. rewrite <- Ed1. split; [exact P1|]. split; [exact P2|].
+    exists (S n), g'. split; [lia|]. cbn [iter]. split; [exact P1|]. split; [exact P2|].
     split; [exact P3|]. split; [exact P4|]. rewrite P5. exact B.
+Qed.
+End Iter.
+
+(* the fault-free step as a function on databases *)
+Definition hstepf (c : tcfg) (ch : chain) (d : db) : db :=
+  r_db (exec_honest 400 (t_uniq c) (t_hashes c) ch (converge c) d None).
+
+Section Reach.
+Variable c : tcfg.
+Variable ch : chain.
+Hypothesis Hc : cfg_ok c.
+Hypothesis Hwf : wf_chain ch.
+Hypothesis Hsmall : height ch < nmax.
+Hypothesis Hdeps : t_deps c = [].
+Hypothesis Hkeys : forall b, In b ch -> NoDup (map fst (b_rows b)).
+
+Lemma hstepf_step : forall g d ln x,
+  pv c d = render c g -> wf_ghost c g -> Forall (on_chain (t_hashes c) ch) (concat g) ->
+  blk_at ch ln = Some x -> at_pos c g ln -> ln < clip c (height ch - 1) ->
+  exists g1 ln1 h1,
+    ln < ln1 /\ ln1 <= clip c (height ch - 1)
+    /\ pv c (hstepf c ch d) = render c g1 /\ outside c (hstepf c ch d) = outside c d
+    /\ wf_ghost c g1 /\ Forall (on_chain (t_hashes c) ch) (concat g1) /\ gpos g1 = Some (ln1, h1).
+Proof.
+  intros g d ln x Hpv Hw Hon Hx Hpos Hlt.
+  destruct (progress_lemma c ch Hc Hwf Hsmall Hdeps Hkeys g d ln x Hpv Hw Hon Hx Hpos Hlt)
+    as (_ & _ & D1 & A & B & C & D & (h & F)).
+  eexists _, (ln + delta_of c ln (clip c (top ch))), h.
+  split; [lia|]. split; [unfold delta_of, top; lia|].
+  split; [exact A|]. split; [exact B|]. split; [exact C|]. split; [exact D|exact F].
+Qed.
+
+(* C01 growth_reaches_head *)
+Lemma reach_lemma : forall g d ln x,
+  pv c d = render c g -> wf_ghost c g -> Forall (on_chain (t_hashes c) ch) (concat g) ->
+  blk_at ch ln = Some x -> at_pos c g ln -> ln < clip c (height ch - 1) ->
+  exists n g', (1 <= n <= N.to_nat (clip c (height ch - 1) - ln))%nat
+    /\ pv c (iter (hstepf c ch) n d) = render c g' /\ wf_ghost c g'
+    /\ Forall (on_chain (t_hashes c) ch) (concat g')
+    /\ (exists h, gpos g' = Some (clip c (height ch - 1), h))
+    /\ outside c (iter (hstepf c ch) n d) = outside c d.
+Proof.
+  intros g d ln x Hpv Hw Hon Hx Hpos Hlt.
+  assert (Hne : 1 <= height ch).
+  { destruct ch; [destruct Hwf|]. unfold height. cbn [length]. lia. }
+  apply (reach_generic (hstepf c ch) c ch hstepf_step (clip_le' c _) Hne _ g d ln x); try assumption. lia.
 Qed.
 
 (* C02 retry_equiv (growth histories): whatever state a failed step left --
    same pair, same outside -- the fault-free retry ends in the same pair and
    the same outside as the fault-free run from the original state *)
 Lemma retry_lemma : forall g d d' ln x,
-  pv c d = render c g -> wf_ghost c g -> Forall (on_chain hs ch) (concat g) ->
-  blk_at ch ln = Some x ->
-  (exists h, gpos g = Some (ln, h)) \/ (g = [] /\ 0 < t_start c /\ ln = t_start c - 1) ->
-  ln < clip c top ->
+  pv c d = render c g -> wf_ghost c g -> Forall (on_chain (t_hashes c) ch) (concat g) ->
+  blk_at ch ln = Some x -> at_pos c g ln -> ln < clip c (height ch - 1) ->
   pv c d' = pv c d -> outside c d' = outside c d ->
-  let x1 := exec_honest 400 u hs ch (converge c) d None in
-  let x2 := exec_honest 400 u hs ch (converge c) d' None in
-  r_out x2 = r_out x1 /\ pv c (r_db x2) = pv c (r_db x1) /\ outside c (r_db x2) = outside c (r_db x1).
+  pv c (hstepf c ch d') = pv c (hstepf c ch d) /\ outside c (hstepf c ch d') = outside c (hstepf c ch d).
 Proof.
-  intros g d d' ln x Hpv Hw Hon Hx Hpos Hlt Ep Eo. cbn zeta.
+  intros g d d' ln x Hpv Hw Hon Hx Hpos Hlt Ep Eo.
   assert (Hpv' : pv c d' = render c g) by (rewrite Ep; exact Hpv).
-  destruct (progress_lemma g d ln x Hpv Hw Hon Hx Hpos Hlt) as (O1 & _ & _ & A1 & B1 & _).
-  destruct (progress_lemma g d' ln x Hpv' Hw Hon Hx Hpos Hlt) as (O2 & _ & _ & A2 & B2 & _).
-  split; [rewrite O1, O2; reflexivity|]. split; [rewrite A1, A2; reflexivity|].
-  rewrite B1, B2. exact Eo.
+  destruct (progress_lemma c ch Hc Hwf Hsmall Hdeps Hkeys g d ln x Hpv Hw Hon Hx Hpos Hlt) as (_ & _ & _ & A1 & B1 & _).
+  destruct (progress_lemma c ch Hc Hwf Hsmall Hdeps Hkeys g d' ln x Hpv' Hw Hon Hx Hpos Hlt) as (_ & _ & _ & A2 & B2 & _).
+  unfold hstepf. split; [rewrite A1, A2; reflexivity|]. rewrite B1, B2. exact Eo.
 Qed.
-
-End Live.
+End Reach.
